@@ -87,7 +87,7 @@ def pose_jacobian(B):
     Jv = [Jg[i] if J[i] not in ('0.0', '1.0') else J[i] for i in range(36)]
     rc = B.get(res, 'covariance')
     for i in range(6):
-        for j in range(i, 6):
+        for j in range(6):        # all 36 entries: the code may compute the blocks separately, symmetry of the result is not assumed
             acc = None
             for k in range(6):
                 for l in range(6):
